@@ -198,7 +198,6 @@ func writeValue(buf *bytes.Buffer, v value) {
 	case *ssa.Function, *ssa.Builtin, *closure:
 		fmt.Fprintf(buf, "%p", v) // (an address)
 
-
 	case tuple:
 		// Unreachable in well-formed Go programs
 		buf.WriteString("(")
@@ -221,4 +220,3 @@ func toString(v value) string {
 	writeValue(&b, v)
 	return b.String()
 }
-
